@@ -145,6 +145,63 @@ func c11RealBinary(r *ev.Result, base string) {
 		c11RealSession(r, base, "ctrl-d", 2)
 		c11LogDir = ""
 	}
+	c11UnusableLog(r, base)
+}
+
+// c11UnusableLog: -log names a file that cannot be opened (its directory is
+// missing, a path component is a regular file, the path is a directory).  The
+// program may refuse to start (whether it says so properly is C20's); if it
+// serves, whatever it delivers has to be in a log that exists.
+func c11UnusableLog(r *ev.Result, base string) {
+	for _, kind := range []string{"directory-missing", "component-is-a-file", "path-is-a-directory"} {
+		dir, _ := os.MkdirTemp(base, "nolog-")
+		logf := filepath.Join(dir, "missing", "session.json")
+		switch kind {
+		case "component-is-a-file":
+			os.WriteFile(filepath.Join(dir, "afile"), []byte("x"), 0o644)
+			logf = filepath.Join(dir, "afile", "session.json")
+		case "path-is-a-directory":
+			logf = filepath.Join(dir, "adir")
+			os.MkdirAll(logf, 0o755)
+		}
+		func() {
+			defer os.RemoveAll(dir)
+			p, addr, err := startReal(dir, "-listen-address", "127.0.0.1:0", "-tls-certificate-cache", filepath.Join(dir, "c.txtar"), "-log", logf)
+			r.Add(1)
+			r.AddDistinct(1)
+			if nil != err {
+				return /* Refused to start. */
+			}
+			defer p.Close()
+			wait := func(re string) bool { return p.WaitFor(regexp.MustCompile(re), 0, 30*time.Second) >= 0 }
+			ci, _ := hworld.DialAddr(addr, "")
+			ci.Send(hworld.Get("/i/nologk", addr))
+			co, _ := hworld.DialAddr(addr, "")
+			co.Send("POST /o/nologk HTTP/1.1\r\nHost: x\r\nTransfer-Encoding: chunked\r\n\r\n")
+			defer ci.Close()
+			defer co.Close()
+			if !wait(`Shell is ready`) {
+				return
+			}
+			p.Send("a line for the shell\r")
+			ci.ReadHeader("GET")
+			ci.C.SetReadDeadline(time.Now().Add(30 * time.Second))
+			got, buf := "", make([]byte, 4096)
+			for !strings.Contains(got, "a line for the shell") {
+				n, err := ci.R.Read(buf)
+				got += string(buf[:n])
+				if nil != err {
+					return
+				}
+			}
+			stopReal(p)
+			b, err := os.ReadFile(logf)
+			if nil != err || !bytes.Contains(b, []byte("a line for the shell")) {
+				r.Violate(ev.Violation{Signature: "logfile/delivered-without-a-log/" + kind, Kind: "c11file", Replay: map[string]string{"scenario": "real binary with -log naming a file that cannot be opened: " + kind},
+					What: fmt.Sprintf("-log %s (%s): the program served all the same, a shell attached and was delivered the line %q, and there is no log holding it (%v)", logf, kind, "a line for the shell", err)})
+			}
+		}()
+	}
 }
 
 // c11LogDir, if set, is where the next sessions keep their (shared) log file.
